@@ -115,6 +115,7 @@ func vhBLSSymSig(name string) []byte {
 	for i := 0; i < 8; i++ {
 		out[1+i] = byte(v >> (56 - 8*uint(i)))
 	}
+	out[9] = verifrt.U8(name + "-torsion") // != 0: outside the prime-order subgroup
 	return out
 }
 
